@@ -356,7 +356,7 @@ impl Accept {
                     self.avail.set_available(idx, false);
                 }
                 #[cfg(actix_net_verif)]
-                crate::verif::point("inc", next.idx());
+                crate::verif::point("inc", self.next);
                 self.set_next();
                 Ok(())
             }
